@@ -172,6 +172,28 @@ func decImpl(line string) string {
 		if again, panicked2 := decString(d); panicked2 || again != text {
 			return "changed-by-use"
 		}
+		// … and the text follows the value: negated, the same object prints the negated number (the text of
+		// the number with the sign flipped), negated back it prints the first text again; given another value
+		// through SetInt64 and its own value back through SetBytes it prints the first text as well
+		if i.Sign() != 0 {
+			d.Negate()
+			neg, _ := decString(d)
+			want := "-" + text
+			if i.Sign() < 0 {
+				want = strings.TrimPrefix(text, "-")
+			}
+			d.Negate()
+			back, _ := decString(d)
+			if neg != want || back != text {
+				return "text-does-not-follow-the-value"
+			}
+			d.SetInt64(7)
+			decString(d)
+			decInstall(d, i)
+			if again, _ := decString(d); again != text {
+				return "text-does-not-follow-the-value"
+			}
+		}
 		d2, err := asetypes.NewDecimalString(p, s, text)
 		if err != nil {
 			return "err"
